@@ -333,3 +333,136 @@ fn c01_frame_write_port_v1_0() {
 	kani::cover!(true, "reached");
 	forget(r);
 }
+
+fn frame_counts_ics(leader_absent_too: bool) {
+	use arrow2::bitmap::Bitmap;
+	use peppi::frame::immutable::{Data as IData, PortData as IPortData};
+	use peppi::frame::mutable::Data as MData;
+	use peppi::game::Port;
+	let v = Version(0, 1, 0);
+	// frame_counts consults only the row count and the validity bitmaps, so the value columns stay
+	// empty (filling them through the readers and push_null costs 13 min; C04 covers how the
+	// bitmaps come about)
+	let mut leader: IData = MData::with_capacity(0, v).into();
+	let mut follower: IData = MData::with_capacity(0, v).into();
+	follower.validity = Some(Bitmap::from([true, false]));
+	if leader_absent_too {
+		leader.validity = Some(Bitmap::from([true, false]));
+	}
+	let mut store = core::mem::ManuallyDrop::new(IPortData { port: Port::P1, leader, follower: Some(follower) });
+	let ports = unsafe { Vec::from_raw_parts(&mut *store as *mut IPortData, 1, 1) };
+	let id0: i32 = kani::any();
+	let id1: i32 = kani::any();
+	let frame = core::mem::ManuallyDrop::new(IFrame {
+		id: arrow2::array::PrimitiveArray::from_vec(vec![id0, id1]),
+		ports,
+		start: None,
+		end: None,
+		item_offset: None,
+		item: None,
+	});
+	let (frames, frame_data, items) = peppi::io::slippi::ser::verif::frame_counts(&frame);
+	assert!(frames == 2);
+	assert!(items == 0);
+	// present (character, row) pairs: leader+follower in row 0, plus the leader in row 1 in the second pattern
+	assert!(frame_data == if leader_absent_too { 2 } else { 3 });
+}
+
+// @verif property=C17,C01 tier=quick mem=16 timeout=2400
+// @encodes peppi::io::slippi::ser::frame_counts on an Ice Climbers port whose leader and follower are both absent from the second of two frames
+// @symbolic 64 the two frame ids
+// @bound two frame rows, one Ice Climbers port, version 0.1.0; validity bitmaps [1,0] given directly, value columns empty
+// @assume the port's column set is a typed stack object
+// @assume oracle: number of Frame Pre (= Frame Post) events the writer emits = number of (character, row) pairs that are present
+// @stub alloc::fmt::format = returns an empty String
+#[kani::proof]
+#[kani::unwind(10)]
+#[kani::stub(alloc::fmt::format, format_stub)]
+fn c17_frame_counts_ics_absent() {
+	frame_counts_ics(true);
+	kani::cover!(true, "reached");
+}
+
+// @verif property=C17,C01 tier=quick mem=16 timeout=2400
+// @encodes peppi::io::slippi::ser::frame_counts on an Ice Climbers port whose follower alone is absent from the second of two frames
+// @symbolic 64 the two frame ids
+// @bound two frame rows, one Ice Climbers port, version 0.1.0; validity bitmaps given directly, value columns empty
+// @assume the port's column set is a typed stack object
+// @stub alloc::fmt::format = returns an empty String
+#[kani::proof]
+#[kani::unwind(10)]
+#[kani::stub(alloc::fmt::format, format_stub)]
+fn c17_frame_counts_ics_follower_absent() {
+	frame_counts_ics(false);
+	kani::cover!(true, "reached");
+}
+
+// @verif property=C13,C04:thorough tier=quick mem=16 timeout=2400
+// @encodes peppi::frame::mutable::Frame::transpose_one (in-progress representation): frame id, start, end and the per-frame item slice delimited by the item offsets
+// @symbolic 1100 two frame ids, start/end payloads, three item payloads
+// @bound port-free mutable frame columns, version 3.16.0, two completed rows with 1 and 2 items; both rows viewed, the newest one included
+// @assume columns filled directly through the real readers (not through parse_event)
+// @stub alloc::fmt::format = returns an empty String
+#[kani::proof]
+#[kani::unwind(10)]
+#[kani::stub(alloc::fmt::format, format_stub)]
+fn c13_mut_frame_item_slices() {
+	let v = Version(3, 16, 0);
+	let ids: [i32; 2] = kani::any();
+	let sp: [[u8; 8]; 2] = kani::any();
+	let ep: [[u8; 4]; 2] = kani::any();
+	let ip: [[u8; 40]; 3] = kani::any();
+	let mut f = MFrame::with_capacity(0, v, &[]);
+	let ok = match (f.start.as_mut(), f.item.as_mut(), f.end.as_mut(), f.item_offset.as_mut()) {
+		(Some(s), Some(it), Some(e), Some(off)) => {
+			let mut ok = true;
+			// row 0: one item; row 1: two items
+			f.id.push(Some(ids[0]));
+			ok = ok && s.read_push(&mut &sp[0][..], v).is_ok();
+			ok = ok && it.read_push(&mut &ip[0][..], v).is_ok();
+			ok = ok && off.try_push(1).is_ok();
+			ok = ok && e.read_push(&mut &ep[0][..], v).is_ok();
+			f.id.push(Some(ids[1]));
+			ok = ok && s.read_push(&mut &sp[1][..], v).is_ok();
+			ok = ok && it.read_push(&mut &ip[1][..], v).is_ok();
+			ok = ok && it.read_push(&mut &ip[2][..], v).is_ok();
+			ok = ok && off.try_push(2).is_ok();
+			ok && e.read_push(&mut &ep[1][..], v).is_ok()
+		}
+		_ => false,
+	};
+	assert!(ok);
+	let counts = [1usize, 2usize];
+	let firsts = [0usize, 1usize];
+	let mut i = 0;
+	while i < 2 {
+		let t = f.transpose_one(i, v);
+		assert!(t.id == ids[i]);
+		match (&t.start, f.start.as_ref()) {
+			(Some(ts), Some(cs)) => assert!(ts.random_seed == cs.random_seed.values()[i]),
+			_ => assert!(false),
+		}
+		match (&t.end, f.end.as_ref()) {
+			(Some(te), Some(ce)) => assert!(te.latest_finalized_frame == ce.latest_finalized_frame.as_ref().map(|c| c.values()[i])),
+			_ => assert!(false),
+		}
+		match (&t.items, f.item.as_ref()) {
+			(Some(items), Some(col)) => {
+				// exactly the slice delimited by the row's item offsets
+				assert!(items.len() == counts[i]);
+				let mut j = 0;
+				while j < counts[i] {
+					assert!(items[j].id == col.id.values()[firsts[i] + j]);
+					assert!(items[j].r#type == col.r#type.values()[firsts[i] + j]);
+					assert!(items[j].id == u32::from_be_bytes([ip[firsts[i] + j][29], ip[firsts[i] + j][30], ip[firsts[i] + j][31], ip[firsts[i] + j][32]]));
+					j += 1;
+				}
+			}
+			_ => assert!(false),
+		}
+		forget(t);
+		i += 1;
+	}
+	kani::cover!(true, "reached");
+	forget(f);
+}
